@@ -23,6 +23,10 @@ import (
 type Spec struct {
 	Holders []map[string]string `json:"holders"`
 	Bound   int                 `json:"bound"`
+	// HoldUntil[i] = j: holder i stays inside its critical section until holder j has entered (only
+	// used where i and j are compatible and nothing else can keep j out for good): if the lock
+	// serialises them the program never finishes
+	HoldUntil map[int]int `json:"hold_until,omitempty"`
 }
 
 func (s Spec) name() string {
@@ -39,6 +43,9 @@ func (s Spec) name() string {
 		}
 		l = append(l, strings.Join(p, ""))
 	}
+	if len(s.HoldUntil) > 0 {
+		return strings.Join(l, "|") + fmt.Sprintf("/hold%v", s.HoldUntil)
+	}
 	return strings.Join(l, "|")
 }
 
@@ -54,6 +61,7 @@ func conflict(a, b map[string]string) bool {
 
 type obs struct {
 	inside   map[int]bool
+	entered  map[int]bool
 	overlap  map[string]bool // pairs "i-j" seen overlapping in this execution
 	bad      string
 	done     bool
@@ -63,7 +71,7 @@ var focus = []string{"commservices/mutex", "checks/c15"}
 
 func build(sp Spec, o *obs) func() {
 	return func() {
-		*o = obs{inside: map[int]bool{}, overlap: map[string]bool{}}
+		*o = obs{inside: map[int]bool{}, entered: map[int]bool{}, overlap: map[string]bool{}}
 		sm := mutex.NewSharedMutex()
 		var wg vsched.WaitGroup
 		for i, h := range sp.Holders {
@@ -84,7 +92,13 @@ func build(sp Spec, o *obs) func() {
 					}
 				}
 				o.inside[i] = true
+				o.entered[i] = true
 				vsched.Point("critical-section")
+				if j, ok := sp.HoldUntil[i]; ok {
+					for !o.entered[j] {
+						vsched.Yield()
+					}
+				}
 				delete(o.inside, i)
 				u.Unlock()
 			})
@@ -135,7 +149,7 @@ func programs(thorough bool) []Spec {
 	var ps []Spec
 	for i, a := range maps {
 		for _, b := range maps[i:] {
-			ps = append(ps, Spec{[]map[string]string{a, b}, b2})
+			ps = append(ps, Spec{Holders: []map[string]string{a, b}, Bound: b2})
 		}
 	}
 	for i, a := range maps {
@@ -144,8 +158,20 @@ func programs(thorough bool) []Spec {
 				if !thorough && len(a)+len(b)+len(c) < 5 {
 					continue // quick: only the triples with two-resource maps
 				}
-				ps = append(ps, Spec{[]map[string]string{a, b, c}, b3})
+				ps = append(ps, Spec{Holders: []map[string]string{a, b, c}, Bound: b3})
 			}
+		}
+	}
+	// non-serialisation as a per-execution fact: X holds resource a until the compatible holder Y
+	// has entered, while Z (conflicting with X on a - the first resource in acquisition order, so Z
+	// owns nothing while it waits) is blocked inside Lock
+	x := map[string]string{"a": "W"}
+	for _, z := range []map[string]string{{"a": "W", "b": "R"}, {"a": "W", "b": "W"}, {"a": "R", "b": "R"}, {"a": "W"}} {
+		for _, y := range []map[string]string{{"c": "W", "d": "W"}, {"b": "R", "c": "W"}, {"b": "R", "d": "R"}, {"c": "R"}, {"c": "W"}} {
+			if conflict(z, y) {
+				continue
+			}
+			ps = append(ps, Spec{Holders: []map[string]string{x, z, y}, Bound: b3, HoldUntil: map[int]int{0: 2}})
 		}
 	}
 	return ps
@@ -298,7 +324,7 @@ func replay(wj json.RawMessage) (*fw.Violation, error) {
 
 func init() {
 	fw.Register(&fw.Check{ID: "C15", Level: "model_checking",
-		Rule: "programs = every unordered pair (36) and triple of holders with lock maps over resources {a,b} (absent/R/W per resource, non-empty; quick: triples with >=5 lock entries, thorough: all 120); holder = Lock(map), enter, scheduling point, exit, Unlock; every schedule with <=3/2 (quick) or <=5/3 (thorough) preemptions, the iteration order of the lock map inside Lock being an additional explored choice; oracle: no two conflicting holders inside at once, every compatible pair overlaps in at least one explored execution, no deadlock; plus the lock's main client: 3 programs that combine the task runner's wait lists with named write/read locks (a task blocked on its wait list must not hold its resources), driven through the whole-application harness of C14 under every schedule with free context switches at blocking points. states = distinct schedule traces",
+		Rule: "programs = every unordered pair (36) and triple of holders with lock maps over resources {a,b} (absent/R/W per resource, non-empty; quick: triples with >=5 lock entries, thorough: all 120); holder = Lock(map), enter, scheduling point, exit, Unlock; every schedule with <=3/2 (quick) or <=5/3 (thorough) preemptions, the iteration order of the lock map inside Lock being an additional explored choice; oracle: no two conflicting holders inside at once, every compatible pair overlaps in at least one explored execution, no deadlock; 17 programs over resources {a,b,c,d} in which a holder stays inside until a compatible holder has entered while a third, conflicting holder is blocked inside Lock (serialisation of unrelated holders shows as a program that never finishes); plus the lock's main client: 3 programs that combine the task runner's wait lists with named write/read locks (a task blocked on its wait list must not hold its resources), driven through the whole-application harness of C14 under every schedule with free context switches at blocking points. states = distinct schedule traces",
 		Run: run, Replay: replay,
 		Assumptions: []string{"2 resources, 2-3 holders; Go's RWMutex writer preference is modelled by the shim (announced writer blocks later readers)"}})
 }
